@@ -249,7 +249,7 @@ pub fn check(prop: &str, tier: &str) -> i32 {
     let mut sweep_runs = 0u64;
     {
         use rayon::prelude::*;
-        let jobs: Vec<(u8, u64, usize)> = (0..=5u8).rev().flat_map(|p| (0..sweep_n).flat_map(move |s| (0..3usize).map(move |c| (p, s, c)))).collect();
+        let jobs: Vec<(u8, u64, usize)> = (0..=5u8).rev().flat_map(|p| (crate::report::sweep_base(sweep_n)..crate::report::sweep_base(sweep_n) + sweep_n).flat_map(move |s| (0..3usize).map(move |c| (p, s, c)))).collect();
         let res: Vec<(Cfg, u64, Vec<Finding>, Option<Vec<u8>>)> = jobs
             .par_iter()
             .filter_map(|(p, s, c)| {
@@ -269,7 +269,7 @@ pub fn check(prop: &str, tier: &str) -> i32 {
                 };
                 let ctx = RunCtx { cfg: &cfg, script: &[], res: &r, tr: &tr, ops: &ops, m: m.as_ref() };
                 let fs = mon(&ctx);
-                let keep = if *s < 40 { r.bytes().map(|b| b.to_vec()) } else { None };
+                let keep = if *s - crate::report::sweep_base(sweep_n) < 40 { r.bytes().map(|b| b.to_vec()) } else { None };
                 Some((cfg, *s, fs, keep))
             })
             .collect();
@@ -283,7 +283,7 @@ pub fn check(prop: &str, tier: &str) -> i32 {
             }
         }
     }
-    rep.set("seed_sweep", json!({"seeds_per_protocol_and_config": sweep_n, "generations": sweep_runs, "label": "sweep of a finite seed range in PRNG mode, default 60-300 opcodes; not exhaustive over 2^64 seeds"}));
+    rep.set("seed_sweep", json!({"seeds_per_protocol_and_config": sweep_n, "first_seed": crate::report::sweep_base(sweep_n), "generations": sweep_runs, "label": "sweep of a finite seed range in PRNG mode, default 60-300 opcodes; not exhaustive over 2^64 seeds"}));
     // bind L and M to CPython on the collected outputs
     all_outputs.sort();
     all_outputs.dedup();
